@@ -10,6 +10,7 @@ import OFV.Proofs.C02Majorana
 import OFV.Proofs.C02Pred
 import OFV.Proofs.C02Tensor
 import OFV.Proofs.C02MajEq
+import OFV.Proofs.C02Clifford
 
 namespace OFV.C02
 open OFV OFV.Model OFV.Model.C02 OFV.Proofs.C02
@@ -166,6 +167,14 @@ theorem commutes_shortcut_iff_products_equal (ta tb : MTerm) (ca cb : GQ) (h : c
     have : ca * cb * GQ.sgn (mergeM ta tb).2 = ca * cb * GQ.sgn (mergeM tb ta).2 := by
       simpa using he
     exact (mul_sgn_eq_iff (ca * cb) h _ _).1 this
+
+/-- **`_majorana_terms_commute` decides commutation in the Spec** (Majorana action `Spec.actM` on
+Fock bit masks, `γ_{2j} = a_j + a_j^†`, `γ_{2j+1} = i(a_j^† - a_j)`): for strictly increasing index
+lists the shortcut is True iff `γ_a γ_b` and `γ_b γ_a` act identically on every basis state.
+Uses the shared soundness lemma of `_merge_majorana_terms` (C01) and the parity identity above. -/
+theorem majorana_terms_commute_iff (a b : MTerm) (ha : a.Pairwise (· < ·)) (hb : b.Pairwise (· < ·)) :
+    majoranaTermsCommute a b = true ↔ ∀ s, Spec.actMTerm (a ++ b) s = Spec.actMTerm (b ++ a) s :=
+  majoranaTermsCommute_iff_spec a b ha hb
 
 example : majoranaTermsCommute [0, 1] [1, 2] = false ∧ majoranaTermsCommute [0, 1] [2, 3] = true := by
   simp [majoranaTermsCommute, interM]
